@@ -233,7 +233,8 @@ class TraitList(list):
         added : list
             The items being added to the list.
         """
-        for notifier in self.notifiers:
+        # (a notifier may remove itself, or add another, while it is called)
+        for notifier in list(self.notifiers):
             notifier(self, index, removed, added)
 
     # -- list interface -------------------------------------------------------
